@@ -1,5 +1,6 @@
 import HdVerif.Model.VR
 import HdVerif.Generated.T20vr
+import HdVerif.Generated.T20pyd
 /-! Dispatch from a value-representation name to the regenerated guard and to the PS3.5 validity predicate (C20). -/
 namespace HdVerif.VR
 open HdVerif.Gen
@@ -16,5 +17,32 @@ def guardAccepts (g : String) (s : List Char) : Bool :=
 def validFor (a : String) (s : List Char) : Prop :=
   if a = "CS" then validCS s else if a = "SH" then validSH s else if a = "LO" then validLO s else
   if a = "ST" then validST s else if a = "LT" then validLT s else False
+
+/-! ## pydicom's own rules (what its validator lets through when a value is assigned / written under strict validation)
+
+`pydicom.valuerep.validate_value(vr, value, RAISE)` dispatches on `VALIDATORS[vr]`; for the text VRs: `validate_type_and_length`
+(`len(value) <= MAX_VALUE_LEN[vr]` when there is a limit) and `validate_length_and_type_and_regex` (the same and
+`validate_regex`: an empty value passes, otherwise `re.match(VR_REGEXES[vr], value)` and the last character is not a newline).
+The tables are regenerated from the installed pydicom (`Generated/T20pyd.lean`); these few lines are hand-written after
+`validate_vr_length` / `validate_regex` (their shape is checked by the translator) and compared with the real `validate_value` on
+every string of the guard stream (correspondence stream `pydicom_rule`). -/
+
+def pydMax (vr : String) : Nat :=
+  match pydMaxLen.find? (·.1 == vr) with
+  | some p => p.2
+  | none => 0
+
+def pydLenOk (vr : String) (s : List Char) : Bool := pydMax vr == 0 || decide (s.length ≤ pydMax vr)
+
+def pydRegexOk (re : Re) (s : List Char) : Bool := s.isEmpty || (reMatch re s && s.getLast? != some '\n')
+
+/-- does pydicom's validator accept the text `s` for value representation `vr` (`false` for a VR this file does not model) -/
+def pydAccepts (vr : String) (s : List Char) : Bool :=
+  match pydValidators.find? (·.1 == vr) with
+  | some p =>
+    if p.2 = "validate_type_and_length" then pydLenOk vr s
+    else if p.2 = "validate_length_and_type_and_regex" ∧ vr = "CS" then pydLenOk vr s && pydRegexOk pydRegexCS s
+    else false
+  | none => false
 
 end HdVerif.VR
